@@ -16,9 +16,19 @@ OUT = os.path.join(ROOT, "out")
 _ENG = None
 
 
+def _limit_memory():
+    try:
+        import resource
+        lim = int(os.environ.get("PYVC_MEM_GB", "10")) * (1 << 30)
+        resource.setrlimit(resource.RLIMIT_AS, (lim, lim))
+    except Exception:
+        pass
+
+
 def _engine():
     global _ENG
     if _ENG is None:
+        _limit_memory()
         from .symexec import Engine
         _ENG = Engine()
     return _ENG
